@@ -147,7 +147,7 @@ var registry = map[string]*Check{}
 func init() {
 	c07Overlay := []Inject{{RepoRel: "internal/actor/zz_verif_export.go", Src: "overlay/actor_export.go.txt"}}
 	registry["C07"] = &Check{
-		Rule: "generated histories of groups of {Start, Stop(timeout), cancel creating context} (a group is issued concurrently) over systems with a generated actor tree and an optional actor whose OnKill is gated; run inside a synctest bubble (virtual clock). Non-trivial = a concurrent group, or >=2 lifecycle calls with at least one issued after a successful Stop/cancel. Second unit ('any actor tree'): trees of 1-7 actors from the scenario engine of C03-C10 (own one-for-one / one-for-all strategies with every decision, failing OnLaunch incarnations, failing restart hooks = zombies, handlers that panic on OnKill / on a child's OnKilled / on their own OnKilled), a script of 1-5 failures / kills / spawns / watches executed right before - settled or racing - Stop(), Stop(50 ms | 1 s | 30 s) or the cancellation of the creating context; oracle: Stop returns nil within its timeout (no handler blocks in these trees), no actor context is registered afterwards (white-box table), no user code runs in the following 5 virtual minutes, a further Stop answers AlreadyStopped; slow terminators: 1-3 actors whose OnKill blocks on a gate that is opened after the Stop was issued, or only after a Stop(50 ms | 1 s) has timed out (then: the stop-failed error exactly at the timeout, later every actor gone and no goroutine left); non-trivial there = a nested tree or an actor that fails while terminating. Third unit ('with remoting', real sockets and clock): a system with 0-3 connections of kinds {answering vivid peer, dialled peer gone silent after the handshake, such a peer connected to the system, dialled peer that closed, a Tell to an unreachable address being retried, an actor that Tells an unreachable address from OnKill} is stopped by Stop() (timeout 8 s) or by cancelling its context; the system is a plain one, a self-seeded cluster node, a cluster node still joining an unreachable seed, or one whose Start cannot succeed (advertised address without a port; bind address in use - then: the following Stop and Start answer within 9 s and no library goroutine is left 15 s later); oracle: nil within the timeout, a further Stop answers AlreadyStopped within 500 ms, and after the answering peers are stopped too no goroutine with a frame of the library or its scheduler is left (polled for 25 s); non-trivial there = at least one connection. After every stop - clean or timed out - of the state-machine unit the goroutines of the bubble are counted once the slow actor has finished. Distinct = hash of the generated history.",
+		Rule: "generated histories of groups of {Start, Stop(timeout), cancel creating context} (a group is issued concurrently) over systems with a generated actor tree and an optional actor whose OnKill is gated; run inside a synctest bubble (virtual clock). Non-trivial = a concurrent group, or >=2 lifecycle calls with at least one issued after a successful Stop/cancel. Second unit ('any actor tree'): trees of 1-7 actors from the scenario engine of C03-C10 (own one-for-one / one-for-all strategies with every decision, failing OnLaunch incarnations, failing restart hooks = zombies, handlers that panic on OnKill / on a child's OnKilled / on their own OnKilled), a script of 1-5 failures / kills / spawns / watches executed right before - settled or racing - Stop(), Stop(50 ms | 1 s | 30 s) or the cancellation of the creating context; oracle: Stop returns nil within its timeout (no handler blocks in these trees), no actor context is registered afterwards (white-box table), no user code runs in the following 5 virtual minutes, a further Stop answers AlreadyStopped; slow terminators: 1-3 actors whose OnKill blocks on a gate that is opened after the Stop was issued, or only after a Stop(50 ms | 1 s) has timed out (then: the stop-failed error exactly at the timeout, later every actor gone and no goroutine left); non-trivial there = a nested tree or an actor that fails while terminating. Third unit ('with remoting', real sockets and clock): a system with 0-3 connections of kinds {answering vivid peer, dialled peer gone silent after the handshake, such a peer connected to the system, dialled peer that closed, a Tell to an unreachable address being retried, an actor that Tells an unreachable address from OnKill} is stopped by Stop() (timeout 8 s) or by cancelling its context; the system is a plain one, a self-seeded cluster node, a cluster node still joining an unreachable seed, or one whose Start cannot succeed (advertised address without a port; bind address in use - then: the following Stop and Start answer within 9 s and no library goroutine is left 15 s later); oracle: nil within the timeout, a further Stop answers AlreadyStopped within 500 ms, and after the answering peers are stopped too no goroutine with a frame of the library or its scheduler is left (polled for 25 s); non-trivial there = at least one connection. After every stop - clean or timed out - of the state-machine unit the goroutines of the bubble are counted once the slow actor has finished. Distinct = hash of the generated history. Unit spawnstop (generator-owned schedule): a top-level ActorOf issued from its own goroutine is parked at a drawn statement boundary of Context.ActorOf (window points inserted into a copy of context.go at check time, none inside a critical section) on a system with 0-3 top-level actors with 0-2 children each; meanwhile Stop (default or drawn timeout) or the context cancellation runs as far as it gets; then the spawn goes on (its actor may spawn 0-2 children in OnLaunch, a second ActorOf may follow). Oracle: ActorOf returns; Stop returns nil within its timeout; no actor is registered afterwards, the late actor - if it was launched - saw its own OnKilled, no user code runs later, a further Stop answers AlreadyStopped, no goroutine is left. Non-trivial there = the spawn was parked.",
 		Assumptions: []string{
 			"virtual clock and quiescence by testing/synctest (Go 1.26.8); goroutines of a concurrent group really run in parallel, their interleaving is the Go scheduler's",
 			"remoting-enabled systems are exercised by the rlab-based checks (C11/C14), not here",
@@ -289,13 +289,15 @@ func init() {
 
 	actorOverlay := []Inject{{RepoRel: "internal/actor/zz_verif_export.go", Src: "overlay/actor_export.go.txt"}}
 	registry["C09"] = &Check{
-		Rule: "C08's trees (2-7 actors, every decision x strategy, providers, failing OnLaunch incarnations) plus failing restart hooks (OnPreRestart / OnRestarted / OnPrelaunch-on-restart, by error or panic); 1-3 bursts of 3-12 messages queued behind a gated handler with the failing message at a drawn position (optionally a second failing message), bursts released one after the other or together (concurrent failures of several actors); at quiescence probes are sent to every live actor, zombies are optionally killed. Oracle: white-box IsPaused / lifecycle state of every registered actor (overlay accessor) + conservation and order of the queued burst + delivery to a surviving target + probes handled exactly once + zombie clauses (no user code after the failed hook, no termination notice, released by Kill with exactly one OnKilled to its parent). Non-trivial = a message was queued behind the failing one or the target survived the failure. Distinct = hash of the case.",
+		Rule: "C08's trees (2-7 actors, every decision x strategy, providers, failing OnLaunch incarnations) plus failing restart hooks (OnPreRestart / OnRestarted / OnPrelaunch-on-restart, by error or panic); 1-3 bursts of 3-12 messages queued behind a gated handler with the failing message at a drawn position (optionally a second failing message), bursts released one after the other or together (concurrent failures of several actors); at quiescence probes are sent to every live actor, zombies are optionally killed. Oracle: white-box IsPaused / lifecycle state of every registered actor (overlay accessor) + conservation and order of the queued burst + delivery to a surviving target + probes handled exactly once + zombie clauses (no user code after the failed hook, no termination notice, released by Kill with exactly one OnKilled to its parent). Non-trivial = a message was queued behind the failing one or the target survived the failure. Distinct = hash of the case. Unit supwindow (generator-owned schedule): a supervisor s (one-for-one or one-for-all, 1-3 drawn decisions) with children x (optionally with a provider and a grandchild) and y under a drawn system strategy; x fails (panic or Failed) with 0-3 messages queued behind; one of s, x, y is parked at a drawn statement boundary of what follows (window points inserted at check time into copies of context.go: failed / onSupervise / onRestart / onKill / doKill / onCommand, supervision_context.go and killed_handler.go; the index is folded into the number of points the actor really passes) while the rest of the system runs ahead and 0-4 outside operations happen (kill or graceful kill of x, y, s or the grandchild, a second failure, ordinary mail); after the release 0-3 more. Oracle: at quiescence no registered non-zombie actor is paused or in a state other than running, a message sent afterwards to every address is handled exactly once by a living actor / handled or dead-lettered exactly once otherwise, every message sent in between ended in exactly one place. Non-trivial there = an actor was parked.",
 		Assumptions: []string{
 			"for a failing OnPreRestart both outcomes (restart continues / actor becomes a zombie) are accepted: the documentation and the code disagree and the property only requires 'not stuck'",
 			"white-box reads go through an overlay-only accessor file compiled into internal/actor at check time",
 		},
 		Units: []Unit{
 			{Name: "stuck", Pkg: "c08", Run: "^TestC09NotStuck$", QuickChecks: 8000, ThoroughChecks: 80000, ThoroughShards: 16, CaseFile: true, CrashOracle: "no-crash", Inject: actorOverlay},
+			{Name: "supwindow", Pkg: "c09w", Run: "^TestC09SupervisionWindow$", QuickChecks: 3000, QuickShards: 4, ThoroughChecks: 80000, ThoroughShards: 16, CaseFile: true, CrashOracle: "no-crash", Inject: actorOverlay,
+				Windows: map[string][]string{"internal/actor/context.go": {"failed", "onSupervise", "onRestart", "onKill", "doKill", "onCommand"}, "internal/actor/supervision_context.go": nil, "internal/actor/killed_handler.go": nil}},
 		},
 	}
 	// C08's package also contains the C09 test file, which needs the accessor
